@@ -698,7 +698,10 @@ def run_e2e(ctx, quick, seps):
 SKILL_MD = '---\nname: %s\ndescription: test skill\n---\n\n# skill\n'
 CMD_MD = '---\ndescription: test command\n---\n\nDo the thing.\n'
 
-def kind_world(sb, kind, rng):
+SKILL_ID_VARIANTS = [('skill:helper', 'helper'), ('skill:my-skill', 'my-skill'), ('skill:team:reviewer', 'team:reviewer'), ('skill:a:b:c', 'a:b:c'),
+                     ('release.notes', 'release_notes'), ('plain-skill', 'plain-skill'), ('a b.c', 'a_b_c')]
+
+def kind_world(sb, kind, rng, variant=0):
     """returns (target, module, [deployed path to edit], info)"""
     sb.git_init_project()
     ch = os.path.join(sb.home, 'codex_home'); os.makedirs(ch, exist_ok=True)
@@ -720,9 +723,11 @@ def kind_world(sb, kind, rng):
         mod = {'id': 'command:ship', 'type': 'command'}; files = {'ship.md': CMD_MD}
         info.update({'ty': 2, 'src_name': 'ship.md', 'root': os.path.join(sb.project, '.claude', 'commands')})
     elif kind == 'codex_skill':
-        name = rng.choice(['helper', 'my-skill', 'team:reviewer', 'a:b:c', 'x:'+'y'])   # the skill name is everything after the FIRST ':' of the id
+        # (module id, skill directory): the directory is everything after the FIRST ':' of the id, or, for an id
+        # without a type prefix, the SANITISED whole id; every variant is exercised (run_kinds enumerates them)
+        mid, name = SKILL_ID_VARIANTS[variant % len(SKILL_ID_VARIANTS)]
         target, scope, opts = 'codex', 'user', dict(codex_opts, write_user_skills=True)
-        mod = {'id': 'skill:' + name, 'type': 'skill'}; files = {'SKILL.md': SKILL_MD % name, 'notes/x.md': 'note\n'}
+        mod = {'id': mid, 'type': 'skill'}; files = {'SKILL.md': SKILL_MD % name, 'notes/x.md': 'note\n'}
         info.update({'ty': 3, 'skill_name': name, 'root': os.path.join(ch, 'skills'), 'edit_rel': rng.choice(['SKILL.md', 'notes/x.md'])})
     elif kind == 'cursor_rule':
         target, scope, opts = 'cursor', 'project', {}
@@ -748,7 +753,7 @@ def run_kind(args):
     sb = Sandbox('c17k')
     ob = {'kind': kind}
     try:
-        target, info = kind_world(sb, kind, rng)
+        target, info = kind_world(sb, kind, rng, variant=seed)
         ob['info'] = info
         tflag = ['--target', target]
         rc, doc, so, se = sb.cli_json(tflag + ['deploy', '--apply', '--yes'])
@@ -784,7 +789,10 @@ def run_kind(args):
 def run_kinds(ctx, quick, only=None):
     kinds = [only] if only else ['vscode_prompt_md', 'vscode_prompt_pm', 'vscode_prompt_txt', 'codex_prompt', 'claude_command', 'codex_skill', 'cursor_rule']
     reps = 3 if quick else 12
-    jobs = [(k, ctx.rng.randrange(1 << 30)) for k in kinds for _ in range(reps)]
+    jobs = [(k, ctx.rng.randrange(1 << 30)) for k in kinds if k != 'codex_skill' for _ in range(reps)]
+    if 'codex_skill' in kinds:
+        base = ctx.rng.randrange(1 << 20) * len(SKILL_ID_VARIANTS)
+        jobs += [('codex_skill', base + i) for i in range(len(SKILL_ID_VARIANTS) * (1 if quick else 3))]
     with concurrent.futures.ThreadPoolExecutor(max_workers=max(2, NCPU // 2)) as ex:
         obs = list(ex.map(run_kind, jobs))
     rel_cases, name_cases, cur_cases = [], [], []
